@@ -38,9 +38,9 @@ def _ufunc_of(run, cls: ClassInfo) -> Optional[str]:
     return None
 
 
-def _exponent_known_at(cfg, node, other) -> Optional[str]:
+def _exponent_known_at(cfg, node, other, extra=None) -> Optional[str]:
     """the constant k such that `<other> == k` is known to hold whenever `node` executes (text of the constant), else None"""
-    for c_ in cfg.conds_true_at(node):
+    for c_ in list(extra or []) + cfg.conds_true_at(node):
         if isinstance(c_, ast.Compare) and len(c_.ops) == 1 and isinstance(c_.ops[0], ast.Eq):
             if norm(c_.left) == other and isinstance(c_.comparators[0], ast.Constant):
                 return norm(c_.comparators[0])
@@ -95,7 +95,7 @@ def r11_1(run):
             # the documented power shortcuts
             if name in ("__pow__", "__ipow__") and got != uf:
                 nn = cfg.stmt_node_containing(s.call)
-                short = POW_SHORTCUTS.get(_exponent_known_at(cfg, nn, other) or "")
+                short = POW_SHORTCUTS.get(_exponent_known_at(cfg, nn, other, s.conds) or "")
                 want = short or uf
             kind_ok = (s.kind == "_in_place_op") == (form == "inplace")
             ops = [norm(a) for a in s.tensors]
@@ -123,7 +123,7 @@ def r11_1(run):
             for s in short:
                 nn = cfg.stmt_node_containing(s.call)
                 # every condition known to hold at the call (conjuncts of the dominating tests, whichever way they are nested or joined)
-                guards = [c_ for c_ in cfg.conds_true_at(nn) if "isinstance(" in norm(c_)]
+                guards = [c_ for c_ in list(s.conds or []) + cfg.conds_true_at(nn) if "isinstance(" in norm(c_)]
                 okg = False
                 SCALARS = {"Number", "Real", "Integral", "int", "float", "numbers.Number", "np.number"}
                 for tst in guards:
